@@ -60,6 +60,15 @@ STDLIB_AXIOMS = {
     "proof_irrelevance",
     "JMeq_eq",
     "JMeq.JMeq_eq",
+    # real numbers (Coq.Reals, pulled in by Flocq / Interval / Coquelicot): declared by the standard library itself
+    "ClassicalDedekindReals.sig_forall_dec",
+    "sig_forall_dec",
+    "ClassicalDedekindReals.sig_not_dec",
+    "sig_not_dec",
+    "constructive_indefinite_description",
+    "ClassicalEpsilon.constructive_indefinite_description",
+    "propositional_extensionality",
+    "PropExtensionality.propositional_extensionality",
 }
 
 
